@@ -5,7 +5,8 @@ from .. import common, meta
 
 LEVEL = "proof"
 RULE = ("Lean: for EVERY sequence of writes inside a block a key absent from the entry snapshot is absent after the block, outer variables keep what the block assigned, shadowed variables get their "
-        "previous value back, the i-th block variable is bound to the i-th parameter type and surplus variables to nil. End-to-end: generated block calls (do/end and braces) over arrays, hashes, "
+        "previous value back, the i-th block variable is bound to the i-th parameter type and surplus variables to nil; the binding loop of Do.setBlockParameters is regenerated from the source "
+        "(Gen/BlockFacts.lean: guard, what each branch binds, whether the loop goes on) and proved equal to the modelled loop. End-to-end: generated block calls (do/end and braces) over arrays, hashes, "
         "ranges, integers and strings with 0-3 parameters, shadowing, nesting and block locals; `dbtp` inside and after the block is compared with a reference (declared block_parameters resolved "
         "against homogeneous receivers; a block local must print after the block what it prints in a program that never assigned it). Non-trivial = at least one dbtp line.")
 
@@ -127,6 +128,7 @@ def evidence(ctx):
     ctx.assumptions += ["receivers are homogeneous literals so the reference for Unify/Item/Flatten parameters is the element type; Array#each with several block variables (destructuring Flatten) is exercised but its parameter types are not compared"]
     common.write_evidence(ctx, LEVEL, RULE, trusted=common.BASE_TRUST + [
         "modelled: DeepCopyTFrame / RestoreFrame / restore list / setBlockParameters on the Go-map model of TFrame",
+        "regenerated: the shape of the binding loop in Do.setBlockParameters (tools/extract/blockfacts.go, syntactic)",
         "not modelled: appendParameterBeforeTypeCalculate's resolution of declared parameter types (end-to-end)"])
 
 
